@@ -266,4 +266,36 @@ pub const ALL: &[(&str, fn(u32, u32) -> u64)] = &[
     ("f_sort_search", f_sort_search),
     ("f_split", f_split),
     ("f_fold_sum", f_fold_sum),
+    ("f_slice_pattern", f_slice_pattern),
+    ("f_extend_findmap", f_extend_findmap),
 ];
+
+pub fn f_slice_pattern(a: u32, b: u32) -> u64 {
+    let v = data(a, b);
+    let n = (a % 4) as usize;
+    let s = &v[..n.min(v.len())];
+    let r1 = match s {
+        [] => 1u64,
+        [x] => 10 + *x as u64,
+        [x, y] => 100 + (*x as u64) * 3 + *y as u64,
+        [x, rest @ ..] => 1000 + *x as u64 + 7 * rest.len() as u64,
+    };
+    let r2 = match v.as_slice() {
+        [first, .., last] => (*first as u64) ^ ((*last as u64) << 32),
+        _ => 0,
+    };
+    let r3 = if let [_, _, tail @ ..] = v.as_slice() { tail.len() as u64 + tail[0] as u64 } else { 5 };
+    r1 ^ r2.rotate_left(7) ^ (r3 << 50)
+}
+pub fn f_extend_findmap(a: u32, b: u32) -> u64 {
+    let mut v = data(a, b);
+    v.extend(if a % 2 == 0 { Some(b) } else { None });
+    v.extend(&[1u32, 2]);
+    v.extend(data(b, a).iter().map(|x| x ^ 1));
+    let f = v.iter().filter(|x| **x != a).find_map(|x| if *x > b { Some(*x as u64 + 1) } else { None }).unwrap_or(3);
+    let mut s = f;
+    for x in &v {
+        s = s.wrapping_mul(31).wrapping_add(*x as u64);
+    }
+    s
+}
